@@ -10,6 +10,8 @@ in the occupied slots.
 -/
 import CelerVerif.Lemmas.TrackInitReach
 import CelerVerif.Lemmas.TrackInitITC3
+import CelerVerif.Lemmas.TrackInitDrain2
+import CelerVerif.Lemmas.TrackInitEnumTable
 
 namespace CelerVerif.TrackInit
 
@@ -213,6 +215,37 @@ theorem physics_keeps_tracks {cfg : Cfg} {s : State} {ni : Nat} (hL : Lens cfg s
     liveL (trackingCut (interact o (preStep s))).slots = liveL s.slots :=
   let h := front_keeps hL hC o ho
   ⟨h.2.1, h.2.2.1, h.2.2.2.1⟩
+
+/-- progress, liveness part — PARTIAL.
+    Full statement (not proved): for every sequence of per-step outcomes in which every track is
+    killed within K of its own steps and only finitely many secondaries are emitted in total, the
+    loop reaches queued = alive = 0 after finitely many steps.
+    Proved here: the case K = 1 without secondaries — if from some reachable state on no primaries
+    arrive and the physics kills every track in its first step, then after
+    `queued / slots + 2` Stepper calls (none of which can fail) `queued = alive = 0`, for every
+    slot count ≥ 1, capacity and track order.  (The per-step progress fact — a step starts
+    exactly min(vacancies, queued) tracks — is `counters_exact`, for every outcome.)
+    That real physics kills every track after finitely many steps is outside the model. -/
+theorem liveness_drain_partial {cfg : Cfg} (hslots : 0 < cfg.slots) {s : State}
+    (h : Reachable cfg s) (os : List (List Outcome)) (hos : ∀ o ∈ os, DrainOracle cfg o)
+    (hlen : s.c.numInitializers / cfg.slots + 2 ≤ os.length) :
+    ∃ s', RunsTo s os s' ∧ Reachable cfg s' ∧ (result s').queued = 0 ∧ (result s').alive = 0 :=
+  liveness_drain hslots h os hos hlen
+
+/-- the enums of the model are the enums of the CURRENT source (tables regenerated from
+    celeritas/Types.hh on every run): every `Status`/`Order` constructor is the C++ enumerator of
+    the same name with the same value (= constructor order), `TrackStatus` has no other
+    non-sentinel enumerator, `errored` opens the dying range, and `init_charge` is the only
+    layout order (`[begin_layout_, end_layout_)`); the remaining `TrackOrder` values (reindex_*)
+    only permute thread→slot and are not modelled. -/
+theorem enums_match_source :
+    (∀ x ∈ allStatus, x.entry ∈ Generated.TrackInit.trackStatus) ∧
+    (Generated.TrackInit.trackStatus.filter (fun p => !isSentinel p)) = allStatus.map Status.entry ∧
+    valueOf Generated.TrackInit.trackStatus "begin_dying_" = some (Status.entry .errored).2 ∧
+    (∀ x ∈ allOrder, x.entry ∈ Generated.TrackInit.trackOrder) ∧
+    valueOf Generated.TrackInit.trackOrder "begin_layout_" = some (Order.entry .initCharge).2 ∧
+    valueOf Generated.TrackInit.trackOrder "end_layout_" = some ((Order.entry .initCharge).2 + 1) := by
+  decide
 
 /-- consecutively numbered steps: a valid track's step counter grows by exactly one per step,
     a new track starts at zero -/
